@@ -30,7 +30,6 @@ for C in $ID "$@"; do
   RES="$RES\"$C\": \"$r\", "
   echo "$out" | grep "^violation:" | head -3 > "$D/check-$C.txt"
 done
-rm -rf /tmp/verif-replays-other-tree
 python3 - "$D" "$ID" "$NAME" "$BUILD" "$EXIST" "$WITH" "$WITHOUT" "$DEMO" "{${RES%, }}" <<'PY'
 import json,sys
 d,pid,name,build,exist,withc,without,demo,res=sys.argv[1:10]
